@@ -10,28 +10,23 @@ open Goyang.Model Goyang.Model.Session Goyang.Spec.Session
 
 /-- `loadText` changes the registry only when it answers `accepted` (so ignoring the registry it
 returns beside another answer, as `tryLoadSrc` does, loses nothing). -/
-theorem loadText_rejected_reg (reg : Registry) (name text : List UInt8)
-    (h : (loadText reg name text).2 ≠ .accepted) : (loadText reg name text).1 = reg := by
-  unfold loadText at h ⊢
+theorem loadText_cases (reg : Registry) (name text : List UInt8) :
+    (loadText reg name text).2 = .accepted ∨ (loadText reg name text).1 = reg := by
+  unfold loadText
   repeat' split
-  all_goals first | rfl | (exfalso; exact h rfl)
+  all_goals first | exact .inr rfl | exact .inl rfl
+
+theorem loadText_rejected_reg (reg : Registry) (name text : List UInt8)
+    (h : (loadText reg name text).2 ≠ .accepted) : (loadText reg name text).1 = reg :=
+  (loadText_cases reg name text).resolve_left h
 
 theorem loadSrc_text (reg : Registry) (name text : List UInt8) :
     loadSrc reg (.text name text) = (loadText reg name text).1 := by
-  unfold loadSrc tryLoadSrc
-  split
-  · rename_i r hr
-    split at hr
-    · rename_i r' heq; cases hr; rw [heq]
-    · cases hr
-  · rename_i e he
-    split at he
-    · cases he
-    · rename_i r' res hne heq
-      rw [heq]
-      have := loadText_rejected_reg reg name text (by rw [heq]; exact fun h => hne r' (by rw [h]))
-      rw [heq] at this
-      exact this.symm
+  have h := loadText_cases reg name text
+  simp only [loadSrc, tryLoadSrc]
+  rcases hlt : loadText reg name text with ⟨r, res⟩
+  rw [hlt] at h
+  cases res <;> first | rfl | (rcases h with h | h; · cases h; · exact h.symm)
 
 theorem loadSrc_stmts (reg : Registry) (f : SrcFile) (h : ∃ r, tryLoad reg f = .ok r) :
     loadSrc reg (.stmts f true) = loadFile reg f := by
